@@ -5,6 +5,8 @@ package main
 import (
 	"encoding/json"
 	"fmt"
+	"math"
+	"time"
 
 	"verif/mc/explore"
 )
@@ -160,6 +162,14 @@ func init() {
 			// handlers that call back into the client when they are told of a failure (a retry, an Indicate): whatever the
 			// client holds while it runs a handler, it must not be something those calls need
 			cliHistories(c, "C10", cliOpts{Reentrant: true}, alpha, depth-1, []string{"drain+close", "close"}, "Hre")
+			// time scales: an RTO of 250 years puts every deadline beyond what a 64-bit count of nanoseconds since 1970
+			// holds, the largest RTO a Duration can express beyond that; a response still completes the transaction, a
+			// tick "far" in the future (an hour) times nothing out
+			slowAlpha := []cliEv{{K: "start", I: 0}, {K: "start", I: 1}, {K: "resp", I: 0}, {K: "resp", I: 1}, {K: "tick", Arg: 4}, {K: "tick", Arg: 2}, {K: "close"}}
+			for _, rto := range []time.Duration{250 * 365 * 24 * time.Hour, time.Duration(math.MaxInt64)} {
+				cliHistories(c, "C10", cliOpts{RTO: int64(rto)}, slowAlpha, depth-1, []string{"close"}, "Hcenturies")
+				cliHistories(c, "C10", cliOpts{RTO: int64(rto), NoRetransmit: true}, slowAlpha, depth-1, []string{"close"}, "Hcenturies-nr")
+			}
 			// from a non-initial state: A was answered once already (so late / duplicate responses to A exist)
 			cliHistoriesFrom(c, "C10", cliOpts{}, []cliEv{{K: "start", I: 0}, {K: "resp", I: 0}}, alpha, depth-1, []string{"drain+close"}, "Hafter")
 			for i, sc := range cliConcurrentScenarios() {
